@@ -10,9 +10,9 @@ ID = "C04"
 RULE = (
     "case = backend x 2..3 populated buckets on one store x history of 1..20 operations on a chosen bucket A with unrestricted arguments: event ids that are "
     "live in A, live in another bucket, dead, never issued, negative or huge; events whose timestamps/end instants are copied from events of other buckets; "
-    "operations insert (with/without id), insert_many (with/without ids), replace, replace_last, delete, update_bucket(A), delete_bucket(A)+re-create. Oracle: pure "
+    "operations insert (with/without id), insert_many (with/without ids, or with an unserialisable event so that the call is rejected half-way), replace, replace_last, delete, update_bucket(A), delete_bucket(A)+re-create; interleaved with the harness's own inserts into OTHER buckets, and with no read in between about half the steps, so that those inserts are still buffered when the next operation on A runs. Oracle: pure "
     "frame condition, no semantic model: the API dump (metadata + sorted (id, instant, duration, data)) of every bucket other than A is identical before and after "
-    "each single operation; an exception counts as 'rejected' and is fine provided the frame still holds. Non-trivial = an operation used an id that is live in "
+    "each checked stretch of operations (single operations about half the time); an exception counts as 'rejected' and is fine provided the frame still holds. Non-trivial = an operation used an id that is live in "
     "another bucket, or an event whose end instant equals that of an event in another bucket."
 )
 ASSUMPTIONS = ["ids are integers", "an operation that raises is 'rejected'; the frame must still hold afterwards"]
@@ -44,8 +44,11 @@ def strategy(draw, tier="quick"):
     init = [draw(st.lists(_ev(), min_size=1, max_size=5)) for _ in range(nb)]
     ops = []
     for _ in range(draw(st.integers(1, 20))):
-        kind = draw(st.sampled_from(["insert", "insert_id", "insert_many", "replace", "replace", "replace_last", "replace_last", "delete", "delete", "update_bucket", "recreate"]))
-        op = {"op": kind}
+        kind = draw(st.sampled_from(["insert", "insert_id", "insert_many", "replace", "replace", "replace_last", "replace_last", "delete", "delete", "update_bucket", "recreate", "other_insert", "other_insert", "insert_many_bad"]))
+        op = {"op": kind, "chk": draw(st.booleans())}
+        if kind in ("other_insert", "insert_many_bad"):
+            op["e"] = draw(_ev())
+            op["k"] = draw(st.integers(0, 5))
         if kind in ("insert", "replace_last"):
             op["e"] = draw(_ev())
             op["copy_from"] = draw(st.one_of(st.none(), st.integers(0, 20)))
@@ -98,10 +101,14 @@ def run_case(case):
             if be == "sqlite":
                 ds.storage_strategy.commit()
         dead = []
+        # `before` is what the other buckets must read back as: taken through the API only at checked steps (API reads
+        # force a commit on the SQLite store; between checks nothing reads, so writes to other buckets stay buffered)
+        # and updated by the harness's own inserts into other buckets
+        with sut(f"{be}: initial dump"):
+            before = stores.api_dump(ds, exclude={A})
+            own = sorted(e.id for e in ds[A].get(limit=-1))
+        since = 0
         for step, op in enumerate(case["ops"]):
-            with sut(f"{be}: dump before step {step}"):
-                before = stores.api_dump(ds, exclude={A})
-                own = sorted(e.id for e in ds[A].get(limit=-1)) if A in ds.buckets() else []
             foreign = sorted(i for n, (_, evs) in before.items() for (i, _, _, _) in evs)
             foreign_iv = sorted((ts, ts + du) for n, (_, evs) in before.items() for (_, ts, du, _) in evs)
 
@@ -131,9 +138,25 @@ def run_case(case):
                     flags["end_coincides"] += 1
 
             kind = op["op"]
+            if kind == "other_insert":
+                others = [n for n in names if n != A]
+                tgt = others[op["k"] % len(others)]
+                with sut(f"{be}: insert into another bucket ({tgt})"):
+                    ev = _mk(Event, op["e"])
+                    r = ds[tgt].insert(ev)
+                before[tgt][1].append((r.id, gen.to_us(ev.timestamp), gen.td_us(ev.duration), json.dumps(ev.data, sort_keys=True)))
+                before[tgt][1].sort()
+                flags["pending_in_other_bucket"] = flags.get("pending_in_other_bucket", 0) + 1
+                continue
             try:
                 b = ds[A]
-                if kind == "insert":
+                if kind == "insert_many_bad":
+                    # a bulk insert that must be rejected half-way: the second event cannot be serialised
+                    good = _mk(Event, op["e"])
+                    bad = _mk(Event, op["e"])
+                    bad.data["blob"] = b"\x00not json"
+                    b.insert([good, bad] if op.get("k", 0) % 2 else [bad, good])
+                elif kind == "insert":
                     ev = _mk(Event, op["e"], None, cp(op["copy_from"]))
                     coincide(ev)
                     b.insert(ev)
@@ -166,8 +189,12 @@ def run_case(case):
                         stores.create_bucket(ds, A)
                     except Exception:
                         pass
+            if not op.get("chk", True) and step != len(case["ops"]) - 1:
+                continue
             with sut(f"{be}: dump after step {step} ({kind})"):
                 after = stores.api_dump(ds, exclude={A})
+                own = sorted(e.id for e in ds[A].get(limit=-1)) if A in ds.buckets() else []
+            first, since = since, step + 1
             if after != before:
                 diffs = []
                 for n in sorted(set(before) | set(after)):
@@ -178,7 +205,9 @@ def run_case(case):
                 key = None
                 if kind in ("replace", "insert_many", "insert_id"):
                     key = f"{be}_{'upsert' if kind != 'replace' else 'replace'}_foreign_id"
-                raise Violation(f"{be}: step {step} {json.dumps(op)} addressed to {A} changed other buckets: {'; '.join(diffs)}", key=key)
+                blamed = f"step {step} {json.dumps(op)}" if first == step else f"steps {first}..{step} {json.dumps(case['ops'][first:step + 1])}"
+                raise Violation(f"{be}: {blamed} addressed to {A} changed other buckets: {'; '.join(diffs)}", key=key)
+            before = after
     classes = [be] + [k for k, v in flags.items() if v]
     return {"nontrivial": flags["foreign_id"] > 0 or flags["end_coincides"] > 0, "classes": classes, "evals": len(case["ops"])}
 
